@@ -1499,11 +1499,16 @@ class PE(object):
         else:
           di = i - (len(params) - ndef)
           if di >= 0:
-            cached = getattr(self, "_def_defaults", {})
+            cached = self.__dict__.setdefault("_def_defaults", {})
             if (id(node), di) in cached:
               local[p] = cached[(id(node), di)]
             else:
               local[p] = self.eval(defaults[di], list(f.closure), f.module)
+              if f.owner is not None and isinstance(
+                  defaults[di], (ast.Dict, ast.List, ast.Set)):
+                # a method's default is evaluated once, when the class body
+                # runs: a mutable default is one object shared by all calls
+                cached[(id(node), di)] = local[p]
           else:
             raise PyRaise("TypeError", "%s() missing argument %s" %
                           (f.name, p))
